@@ -25,6 +25,7 @@ func ipamHistSystems(cloud bool) []*HistSys {
 	ops["lostresp"] = true
 	if cloud {
 		ops["cloudfail"] = true
+		ops["cloudfail2"] = true // also: a resync pass with a failing provider call, the second provider call of an event handler failing
 	}
 	classes := append(append([]wkClass{}, histClasses...), wkClass{"stsmulti", ""}, wkClass{"stsmulti", "immutable"}, wkClass{"ststwin", "immutable"})
 	bound := []Op{{Kind: "create", A: 0}, {Kind: "sched", A: 0}, {Kind: "create", A: 1}, {Kind: "sched", A: 1}}
